@@ -512,6 +512,88 @@ func run(c Case, r *pbt.R, needObserver bool) error {
 	return observe()
 }
 
+// ---------------------------------------------------------------------------
+// pointer elements: "the elements currently held" are the pointers that were pushed, not whatever they point to
+
+// PtrCase: Ops[i] = k >= 0: Push(the k-th pointer of a table of 4 pointers, of which 0 and 1 point to EQUAL integers),
+// -1: Pop. After every call Search of all four pointers, of a fifth pointer (to an equal integer) that is never pushed,
+// and of nil is compared with the model; Peek/Size too.
+type PtrCase struct {
+	Ops []int `json:"ops"`
+}
+
+type ptrStack interface {
+	Push(*int)
+	Pop() *int
+	Peek() *int
+	Search(*int) bool
+	Size() int
+}
+
+func ptrProp(c PtrCase, r *pbt.R) error {
+	if len(c.Ops) > 200 {
+		return nil
+	}
+	a, b, x, y, twin := 7, 7, 9, 0, 7
+	tab := []*int{&a, &b, &x, &y}
+	run := func(name string, st ptrStack, model []*int, linked bool) error {
+		for i, op := range c.Ops {
+			switch {
+			case op >= 0:
+				p := tab[op%len(tab)]
+				st.Push(p)
+				model = append(model, p)
+			default:
+				got := st.Pop()
+				if len(model) == 0 {
+					if got != nil {
+						return fmt.Errorf("%s of *int, ops %v: Pop on an empty stack returned a non-nil pointer", name, c.Ops[:i+1])
+					}
+				} else {
+					// (the value the linked stack's Pop returns is subject to the open finding; its effect is checked below)
+					if !(linked && r.KF(kfPopBelow)) && got != model[len(model)-1] {
+						return fmt.Errorf("%s of *int, ops %v: Pop did not return the pointer pushed last", name, c.Ops[:i+1])
+					}
+					model = model[:len(model)-1]
+				}
+			}
+			if st.Size() != len(model) {
+				return fmt.Errorf("%s of *int, ops %v: Size() = %d, want %d", name, c.Ops[:i+1], st.Size(), len(model))
+			}
+			var top *int
+			if len(model) > 0 {
+				top = model[len(model)-1]
+			}
+			if got := st.Peek(); got != top {
+				return fmt.Errorf("%s of *int, ops %v: Peek does not return the pointer pushed last (nil when empty)", name, c.Ops[:i+1])
+			}
+			for j, p := range append(append([]*int(nil), tab...), &twin) {
+				held := false
+				for _, q := range model {
+					held = held || q == p
+				}
+				if got := st.Search(p); got != held {
+					return fmt.Errorf("%s of *int, ops %v: Search(pointer #%d) = %v, want %v (pointers #0, #1 and the never-pushed #4 point to equal integers but are different pointers)", name, c.Ops[:i+1], j, got, held)
+				}
+			}
+		}
+		return nil
+	}
+	if err := run("Stack", stack.New[*int](), nil, false); err != nil {
+		return err
+	}
+	// the linked stack is created with its mandatory first element: pointer #2
+	if err := run("LStack", stack.NewLinked(tab[2]), []*int{tab[2]}, true); err != nil {
+		return err
+	}
+	twins := false
+	for _, op := range c.Ops {
+		twins = twins || op == 0 || op == 1
+	}
+	r.NonTrivialIf(twins, "a pointer with an equal-valued twin was pushed")
+	return nil
+}
+
 func TestProp(t *testing.T) {
 	lifoQ, obsQ := enumLens(false)
 	lifoT, obsT := enumLens(true)
@@ -535,6 +617,22 @@ func TestProp(t *testing.T) {
 			Rule: common + fmt.Sprintf("Enumerated: the same four start configurations x every sequence over the 11 single calls {Push(1..3), Pop, Peek, Size, Search(0..4)} up to length %d (thorough %d), no observation other than the calls of the sequence before the epilogue. ", obsQ, obsT) +
 				nt + "Here a case additionally needs at least one Peek/Size/Search call to count (which makes the counted cases disjoint from the lifo enumeration).",
 			Enum: enumObservers, Prop: observersProp,
+		},
+		&pbt.Check[PtrCase]{
+			Name: "pointers",
+			Rule: "both stacks instantiated with *int: Push of one of four pointers (two of them point to equal integers) / Pop; after every call Size, Peek (pointer identity) and Search of all four pointers and of a never-pushed fifth pointer to an equal integer: Search reports exactly the POINTERS held. " +
+				"Enumerated: every sequence of up to 4 (thorough 5) operations over {Push p0..p3, Pop}; random: up to 40. Non-trivial = a pointer that has an equal-valued twin was pushed.",
+			Enum: func(s pbt.Src, thorough bool) PtrCase {
+				n := 4
+				if thorough {
+					n = 5
+				}
+				return PtrCase{Ops: pbt.Seq(s, 0, n, func(s pbt.Src) int { return s.Intn(5) - 1 })}
+			},
+			Gen:        func(s pbt.Src, _ bool) PtrCase { return PtrCase{Ops: pbt.Seq(s, 0, 40, func(s pbt.Src) int { return s.Intn(6) - 2 })} },
+			Prop:       ptrProp,
+			OutOfEnum:  func(c PtrCase, th bool) bool { return len(c.Ops) > 5 },
+			RapidQuick: 200, RapidThorough: 3000,
 		},
 	)
 }
